@@ -81,6 +81,11 @@ type Options struct {
 	// OnRelevant, if set, is called at every relevant entry stop (before the
 	// kill decision and before the call executes).
 	OnRelevant func(*Event)
+	// Umask, if non-nil, is the file mode creation mask the command starts
+	// with (default: the supervisor's own). It is set on the tracer thread
+	// only (unshare(CLONE_FS) first), so concurrent runs and the rest of the
+	// supervising process keep their mask.
+	Umask *int
 }
 
 type Result struct {
@@ -168,6 +173,17 @@ func run(o Options) (*Result, error) {
 	go func() { b, _ := io.ReadAll(outR); outR.Close(); outCh <- b }()
 	go func() { b, _ := io.ReadAll(errR); errR.Close(); errCh <- b }()
 
+	if o.Umask != nil {
+		// The calling goroutine is locked to this thread (see Run), the thread
+		// is never reused, and the child is forked from it: give the thread a
+		// private fs_struct (cwd, root, umask) and set the mask there.
+		if err := syscall.Unshare(syscall.CLONE_FS); err != nil {
+			outW.Close() // the reader goroutines then see end of file and close their ends
+			errW.Close()
+			return nil, fmt.Errorf("unshare(CLONE_FS): %w", err)
+		}
+		syscall.Umask(*o.Umask)
+	}
 	pid, err := syscall.ForkExec(o.Argv[0], o.Argv, &syscall.ProcAttr{
 		Dir:   o.Dir,
 		Env:   o.Env,
